@@ -3,6 +3,7 @@ package core
 import (
 	"fmt"
 	"hash/fnv"
+	"reflect"
 	"runtime"
 	"sort"
 	"strconv"
@@ -75,30 +76,32 @@ type Sim struct {
 	// "every client has returned".
 	Record bool // keep a decoded schedule
 
-	mu       sync.Mutex
-	tasks    map[uint64]*Task
-	all      []*Task
-	parked   []*Task // sorted by spawn path
-	arrived  []*Task // parked since the last quiescent point, in arrival order (not yet sorted in)
-	pending  *Task
-	rootG    uint64
-	aborted  atomic.Bool
-	clients  []*Task
-	actors   []*Actor
-	strat    strategy
-	lastID   string
-	machErr  string
-	stopMsg  string
-	Steps    int
-	End      string
-	Panics   []PanicRec
-	SimTime  time.Duration
-	Trace    []string
-	h        uint64
-	Multi    int // number of decisions with >= 2 candidates
-	MaxLive  int
-	Strategy string
-	Stale    int // reservations that were never claimed
+	mu        sync.Mutex
+	tasks     map[uint64]*Task
+	all       []*Task
+	parked    []*Task // sorted by spawn path
+	arrived   []*Task // parked since the last quiescent point, in arrival order (not yet sorted in)
+	locks     map[uintptr]*lockState
+	LockWaits int // times a task had to wait for a modelled lock
+	pending   *Task
+	rootG     uint64
+	aborted   atomic.Bool
+	clients   []*Task
+	actors    []*Actor
+	strat     strategy
+	lastID    string
+	machErr   string
+	stopMsg   string
+	Steps     int
+	End       string
+	Panics    []PanicRec
+	SimTime   time.Duration
+	Trace     []string
+	h         uint64
+	Multi     int // number of decisions with >= 2 candidates
+	MaxLive   int
+	Strategy  string
+	Stale     int // reservations that were never claimed
 }
 
 func goid() uint64 {
@@ -236,6 +239,90 @@ func (s *Sim) panicHook(site string, v interface{}) {
 	runtime.Goexit()
 }
 
+// lockState is the simulator's model of one mutex-like object. Tasks never
+// block inside the real sync primitive: the real Lock is only executed by a
+// task the model has granted the lock to, so it always succeeds at once.
+type lockState struct {
+	writer  *Task
+	readers map[*Task]int
+	waiters []*Task
+}
+
+func lockIdentity(lock interface{}) uintptr {
+	v := reflect.ValueOf(lock)
+	for v.Kind() == reflect.Ptr && !v.IsNil() && v.Elem().Kind() == reflect.Ptr {
+		v = v.Elem()
+	}
+	if v.Kind() == reflect.Ptr {
+		return v.Pointer()
+	}
+	return 0
+}
+
+func (s *Sim) lockHook(site string, lock interface{}, write bool, acquire bool) {
+	g := goid()
+	if g == s.rootG {
+		return
+	}
+	id := lockIdentity(lock)
+	s.mu.Lock()
+	t := s.tasks[g]
+	if t == nil || id == 0 {
+		s.mu.Unlock()
+		return
+	}
+	if s.locks == nil {
+		s.locks = map[uintptr]*lockState{}
+	}
+	ls := s.locks[id]
+	if ls == nil {
+		ls = &lockState{readers: map[*Task]int{}}
+		s.locks[id] = ls
+	}
+	if !acquire {
+		if write {
+			if ls.writer == t {
+				ls.writer = nil
+			}
+		} else if ls.readers[t] > 0 {
+			ls.readers[t]--
+			if ls.readers[t] == 0 {
+				delete(ls.readers, t)
+			}
+		}
+		// everybody waiting for this lock becomes schedulable again and re-tries
+		s.arrived = append(s.arrived, ls.waiters...)
+		ls.waiters = nil
+		s.mu.Unlock()
+		return
+	}
+	for {
+		free := ls.writer == nil && (!write || len(ls.readers) == 0)
+		if free {
+			if write {
+				ls.writer = t
+			} else {
+				ls.readers[t]++
+			}
+			s.mu.Unlock()
+			return
+		}
+		if s.aborted.Load() {
+			s.mu.Unlock()
+			runtime.Goexit()
+		}
+		s.LockWaits++
+		t.site = "lock-wait:" + site
+		ls.waiters = append(ls.waiters, t)
+		s.mu.Unlock()
+		<-t.wake
+		if s.aborted.Load() {
+			runtime.Goexit()
+		}
+		s.mu.Lock()
+	}
+}
+
 // Yield is a yield point for harness code running on a task (SimReader etc.).
 func (s *Sim) Yield(site string) { s.hook(site) }
 
@@ -320,8 +407,9 @@ func (s *Sim) Run() {
 	simrt.Hook = s.hook
 	simrt.SpawnHook = s.spawnHook
 	simrt.PanicHook = s.panicHook
+	simrt.LockHook = s.lockHook
 	defer func() {
-		simrt.Hook, simrt.SpawnHook, simrt.PanicHook = nil, nil, nil
+		simrt.Hook, simrt.SpawnHook, simrt.PanicHook, simrt.LockHook = nil, nil, nil, nil
 	}()
 	s.strat.init(s.T)
 	s.Strategy = s.strat.name()
@@ -452,6 +540,10 @@ func (s *Sim) Run() {
 		s.mu.Lock()
 		ps := append(append([]*Task{}, s.parked...), s.arrived...)
 		s.parked, s.arrived = nil, nil
+		for _, ls := range s.locks {
+			ps = append(ps, ls.waiters...)
+			ls.waiters = nil
+		}
 		s.mu.Unlock()
 		for _, t := range ps {
 			t.wake <- struct{}{}
